@@ -763,6 +763,10 @@ func genWriter(r *rng, n int, tier string, emit func(string, ...string)) {
 
 func init() {
 	kinds["writer"] = kWriter
-	gens["C04"] = genWriter
+	gens["C04"] = func(r *rng, n int, tier string, emit func(string, ...string)) {
+		// three quarters writer scenarios, one quarter arbitrary streams (junk and rejected records between records)
+		genWriter(r, n-n/4, tier, emit)
+		genStream(r, n/4, tier, emit)
+	}
 	gens["C13"] = genWriter
 }
